@@ -383,6 +383,34 @@ func (h *hist) genTxs() []*txRec {
 		if h.cfg.heavy && h.rnd.Intn(4) != 0 {
 			choice = []int{3, 4, 5, 6, 7, 8, 9, 9, 10, 11, 11, 9}[h.rnd.Intn(12)]
 		}
+		followUp := false
+		if h.rnd.Intn(2) == 0 {
+			// follow-up on something that is PENDING for an identity (a status switch or a delegation switch waiting
+			// for its switch block): terminate it, toggle it back, delegate it away before the switch happens
+			var pendingKeys []int
+			for _, a := range s.StatusSwitchAddresses() {
+				if i := h.w.Index(a); i >= 0 && i < 24 {
+					pendingKeys = append(pendingKeys, i)
+				}
+			}
+			for _, d := range s.Delegations() {
+				if i := h.w.Index(d.Delegator); i >= 0 && i < 24 {
+					pendingKeys = append(pendingKeys, i)
+				}
+			}
+			if len(pendingKeys) > 0 {
+				from = h.pick(pendingKeys)
+				choice = []int{5, 5, 5, 7, 9, 10}[h.rnd.Intn(6)]
+				if from == 0 && choice == 5 {
+					choice = 7
+				}
+				nadj, eadj, counts = 0, 0, true
+				followUp = true
+			}
+		}
+		if choice == 5 && !followUp && (from == 0 || h.rnd.Intn(3) != 0) {
+			choice = 0 // plain terminations are kept rare (identities should live long enough to get into pools etc.)
+		}
 		switch choice {
 		case 0, 1, 2:
 			to := h.w.Addrs[h.anyKey()]
@@ -615,6 +643,13 @@ func (h *hist) block() bool {
 		for _, r := range h.genTxs() {
 			var err error
 			h.inZone(prop, func() { err = prop.n.Pool.AddExternalTxs(validation.InboundTx, r.tx) })
+			// the network gossips a transaction to every node: the other proposer-capable replicas get it too
+			for _, o := range h.reps {
+				if o != prop && o.n.Chain.Head.Height() == prop.n.Chain.Head.Height() {
+					oo := o
+					h.inZone(oo, func() { _ = oo.n.Pool.AddExternalTxs(validation.InboundTx, r.tx) })
+				}
+			}
 			m := tr.M{}
 			for k, v := range r.m {
 				m[k] = v
@@ -694,6 +729,26 @@ func (h *hist) block() bool {
 		verdicts[r.name] = v
 		hists[r.name] = hs
 		obs[r.name] = r.n.Obs()
+	}
+	if h.ref.n.Chain.Head.Height() != height && os.Getenv("VERIF_DIAG") != "" {
+		// diagnosis: is the proposal path itself nondeterministic?  re-propose on the same head many times
+		roots := map[string]int{}
+		for i := 0; i < 60; i++ {
+			h.w.SetNow(blk.Header.Time())
+			p := prop.n.Chain.ProposeBlock([]byte{})
+			p.Block.Header.ProposedHeader.Time = blk.Header.Time()
+			k := fmt.Sprintf("%x/%x/txs=%d/flags=%d", p.Block.Root().Bytes()[:6], p.Block.IdentityRoot().Bytes()[:6], len(p.Block.Body.Transactions), p.Block.Header.Flags())
+			roots[k]++
+		}
+		full := tr.M{}
+		for _, r := range h.reps {
+			err := r.n.Validate(data)
+			if err != nil {
+				full[r.name] = err.Error()
+			}
+		}
+		h.out.Emit(tr.M{"ev": "Diag", "hid": h.id, "h": height, "reproposals": roots, "errors": full,
+			"block": fmt.Sprintf("%x/%x/txs=%d", blk.Root().Bytes()[:6], blk.IdentityRoot().Bytes()[:6], len(blk.Body.Transactions))})
 	}
 	if h.ref.n.Chain.Head.Height() != height {
 		// the block was refused by the reference: log it and stop this history
